@@ -1,4 +1,5 @@
 """C18 -- the command line tool reports outcomes faithfully."""
+import re
 from rules import hirq, mirq
 from rules.core import walk, norm_path, AnchorMissing
 
@@ -278,6 +279,27 @@ def r4_outdir(run, F):
     wr = [i for i, t in cfg.calls() if mirq.call_target(t) == "std::fs::write"]
     ok3 = bool(comp) and bool(wr) and all(cfg.dominates(comp[0], w) for w in wr) and any(w in cfg.reachable_from(cfg.succ[w]) for w in wr)
     run.ob("R4-OUT-DIR", "write inside the module loop after compile", ok3, F.where(c), "one file per module")
+    # `set_extension` *replaces* the last extension (x.pn and x.txt, or x.pn given twice, name the same file): either the file name is
+    # built by appending only, or a set of the paths written so far is consulted before each write and a repeated path ends the run
+    rewrites = [u for u in used if u in ("set_extension", "with_extension")]
+    guarded = False
+    ins = [i for i, t in cfg.calls() if re.search(r"(HashSet|BTreeSet)(<.*>)?::insert$", mirq.call_target(t) or "")]
+    for i in ins:
+        sw = mirq.bool_switch_after_call(cfg, i)
+        if not sw or not wr or not all(cfg.dominates(i, w) for w in wr):
+            continue
+        fresh, repeated = sw
+        # on the "already there" edge the function returns without writing
+        after = cfg.reachable_from([repeated])
+        guarded = guarded or (any(e in after for e in cfg.exits()) and not any(_reaches_without_loop(cfg, repeated, w, i) for w in wr))
+    run.ob("R4-OUT-DIR", "no two modules share a file", (not rewrites) or guarded, F.where(c, init),
+           "the file name is built with %s, which replaces an extension instead of appending (x.pn and x.txt both give x.pn.ll): a repeated "
+           "output path must end the run before the second write (guard found: %s)" % (rewrites, guarded))
+
+
+def _reaches_without_loop(cfg, start, target, barrier):
+    """target is reachable from start without passing through barrier (the guard itself, i.e. the next iteration)."""
+    return target in cfg.reachable_from([start], cut={barrier})
 
 
 def r5_stdout(run, F):
